@@ -532,4 +532,51 @@ def gen_scenarios(rng):
         ops.append({"op": "enqueue_batch", "now": now, "enq": [_enq("NB0", body=8), _enq("NB1", body=9)], "snap": True})
         ops.append({"op": "stats", "now": now, "snap": True})
         hs.append({"cfg": cfg, "ops": ops, "snap_every": 1000, "c13_ok": True})
+    # S12: a retention prune is DUE (a message has aged out, no pruning call since) when a call arrives that is refused for its arguments -
+    #      a listing with an order that is none of "", asc, desc - and the next calls address messages by id (they never prune): every store
+    #      runs the due prune inside the refused listing all the same, so the by-id calls see the same queue everywhere
+    for kind in ("dead", "queued", "dead"):
+        D, iv = 30 * SEC, 5 * SEC
+        cfg = _cfg0(prune_iv=iv, dlq_age=D if kind == "dead" else 0, ret_age=D if kind == "queued" else 0)
+        t0 = BASE + rng.randrange(1000) * SEC
+        ops = [{"op": "enqueue", "now": t0, "enq": [_enq("old", body=140)]}, {"op": "enqueue", "now": t0 + 20 * SEC, "enq": [_enq("young", body=141)]}]
+        if kind == "dead":
+            ops.append({"op": "dequeue", "now": t0 + 21 * SEC, "route": "", "target": "", "batch": 2, "ttl": 600 * SEC})
+            d0 = len(ops) - 1
+            ops += [{"op": "lease", "now": t0 + 22 * SEC, "kind": "dead", "dur": 0, "reason": "boom", "lease": {"ref": [d0, j]}} for j in (0, 1)]
+        late = t0 + D + iv + rng.choice([1, SEC, 3 * SEC])
+        bad = {"route": "", "target": "", "state": "", "limit": 0, "before": None, "preview": False, "order": rng.choice(["bogus", "ASC", " desc ", "newest"])}
+        ops.append({"op": "list", "now": late, "filt": bad})
+        ops.append({"op": "lookup", "now": late + 1, "ids": ["old", "young"]})
+        if kind == "dead":
+            ops.append({"op": "manage", "now": late + 2, "kind": rng.choice(["requeue_dead", "delete_dead"]), "ids": ["old", "young"]})
+        else:
+            ops.append({"op": "manage", "now": late + 2, "kind": "cancel", "ids": ["old", "young"]})
+        ops.append({"op": "dequeue", "now": late + 3, "route": "", "target": "", "batch": 5, "ttl": SEC})
+        ops.append({"op": "stats", "now": late + 4})
+        hs.append({"cfg": cfg, "ops": ops, "snap_every": 1, "c13_ok": True})
+    # S13: operator mutations over several hundred messages at once (by-filter limits go up to 1000; an id list is as long as the operator makes
+    #      it): every selected message is changed and counted, whatever the size of the selection
+    for k in range(2):
+        n = rng.choice([510, 560, 620]) if k == 0 else rng.choice([501, 530])
+        now = BASE + rng.randrange(1000) * SEC
+        ops = []
+        i = 0
+        while i < n:
+            m = min(100, n - i)
+            now += MS
+            ops.append({"op": "enqueue_batch", "now": now, "enq": [_enq("M%04d" % (i + j), body=2, recv=now - (n - i - j) * MS) for j in range(m)]})
+            i += m
+        f = {"route": "", "target": "", "state": "", "limit": 1000, "before": None, "preview": False, "order": ""}
+        now += SEC
+        if k == 0:
+            ops.append({"op": "manage_f", "now": now, "kind": "cancel", "filt": dict(f, preview=True), "snap": True})
+            ops.append({"op": "manage_f", "now": now + 1, "kind": "cancel", "filt": dict(f), "snap": True})
+            ops.append({"op": "manage_f", "now": now + 2, "kind": "resume", "filt": dict(f, limit=n - 7), "snap": True})
+            ops.append({"op": "manage", "now": now + 3, "kind": "cancel", "ids": ["M%04d" % j for j in range(0, n, 1)][:n - 3], "snap": True})
+        else:
+            ops.append({"op": "manage", "now": now, "kind": "cancel", "ids": ["M%04d" % j for j in range(n)], "snap": True})
+            ops.append({"op": "manage", "now": now + 1, "kind": "requeue", "ids": ["M%04d" % j for j in range(n - 1, -1, -1)], "snap": True})
+        ops.append({"op": "stats", "now": now + 5, "snap": True})
+        hs.append({"cfg": _cfg0(), "ops": ops, "snap_every": 5000, "c13_ok": True, "only": ["C14"]})
     return hs
